@@ -169,7 +169,6 @@ func cbOf(path []*CmdDecl, ev string) CB {
 func (c05Prop) Exec(cc Case, st *Stats) *Violation {
 	c := cc.(*c05Case)
 	path := c.Tree.Path
-	d := len(path) - 1
 	EnvState{}.Apply()
 	p := NewProc(0)
 	var inst *Instance
@@ -178,6 +177,41 @@ func (c05Prop) Exec(cc Case, st *Stats) *Violation {
 		return inst.Cli.Run(c.Argv)
 	})
 	st.Evals++
+	if v := c05Check(c, p, st, true); v != nil {
+		return v
+	}
+	// History: the same application object invoked again (a REPL or server loop). Every invocation
+	// is "a valid invocation" in the sense of the property, so the same model applies to each.
+	// Only trees whose sub-commands declare nothing can be initialised twice.
+	rerunnable := inst != nil
+	for i := 1; i < len(path); i++ {
+		if len(path[i].Decls) > 0 {
+			rerunnable = false
+		}
+	}
+	if !rerunnable {
+		return nil
+	}
+	for k := 1; k <= 2; k++ {
+		pk := NewProc(k)
+		inst.Proc = pk
+		RunProc(pk, func() error { return inst.Cli.Run(c.Argv) })
+		st.Count("reach.same_app_run_again")
+		if v := c05Check(c, pk, st, false); v != nil {
+			v.Clause = "rerun-" + v.Clause
+			v.Detail = fmt.Sprintf("run %d of the same application object: %s", k+1, v.Detail)
+			return v
+		}
+	}
+	return nil
+}
+
+func c05Check(c *c05Case, p *Proc, st *Stats, first bool) *Violation {
+	path := c.Tree.Path
+	d := len(path) - 1
+	if !first {
+		st = NewStats(1)
+	}
 	obs := p.Observed()
 	observed := map[string]interface{}{"events": obs, "end": describeEnd(p), "stderr_bytes": p.Stderr.Len()}
 
